@@ -119,8 +119,10 @@ def enc_obj(o, cx: Ctx):
         return ("OStr", [ord(ch) for ch in o])
     if t is bytes:
         return ("OBytes", list(o))
-    if isinstance(o, enum.IntEnum) and t in U.CLASS_CODES:
+    if isinstance(o, int) and t in U.CLASS_CODES:  # IntEnum members, instances of int subclasses
         return ("OIntInst", class_code(t), Zi(int(o)))
+    if isinstance(o, float) and t in U.CLASS_CODES:  # float subclasses, float-Enum members
+        return ("OFloatInst", class_code(t), Zi(halves(float(o))))
     if isinstance(o, enum.Enum) and t in U.ENUM_MEMBERS:
         return ("OInst", class_code(t), U.ENUM_MEMBERS[t].index(o))
     if t in U.INSTANCES:
@@ -129,6 +131,8 @@ def enc_obj(o, cx: Ctx):
                 return ("OInst", class_code(t), i)
         raise OutOfFragment("unknown instance")
     if isinstance(o, type):
+        if type(o) is not type:  # enum classes / ABCs as objects: their metaclass makes them iterable, sized, ...
+            raise OutOfFragment("class object with a metaclass")
         return ("OClass", class_code(o))
     if t is tuple:
         ident = 0 if is_hashable(o) else cx.ident(o)
@@ -165,6 +169,9 @@ def enc_val(v, cx: Ctx):
         return ("VLeaf", ("LNewType", U.NEWTYPES[v.newtype], class_code(v.typ)))
     if t is V.UninitializedValue:
         return ("VLeaf", "LUninit")
+    if t is V.TypeAliasValue:
+        # a type alias denotes the aliased value (with its type arguments substituted)
+        return enc_val(v.get_value(), cx)
     if t is V.MultiValuedValue:
         return ("VUnion", [enc_val(x, cx) for x in v.vals])
     if t is V.GenericValue:
